@@ -39,6 +39,13 @@ func storyOps(u *univ.Universe, singles bool) []bfs.Op {
 			ops = append(ops, submitOp{"single", []int{k}})
 		}
 	}
+	// pre-validated submission of v2 blocks that carry v1 transactions (between the allow and the require
+	// height): their stored supplement is not empty
+	for k := 1; k < len(u.Nodes); k++ {
+		if nd := u.Nodes[k]; nd.Valid && nd.Block.V2 != nil && len(nd.Block.Transactions) > 0 {
+			ops = append(ops, submitOp{"validated", []int{k}})
+		}
+	}
 	return ops
 }
 
